@@ -336,6 +336,7 @@ func gen(tier string, rng *h.Rng, emit func(string)) {
 		}
 		dropE, dropPos := -1, 0
 		var S []string
+		var lens []int
 		for e := 0; e < nws; e++ {
 			var st []string
 			for j := range H {
@@ -357,14 +358,53 @@ func gen(tier string, rng *h.Rng, emit func(string)) {
 				sh[a] = st[b]
 			}
 			S = append(S, joinOr(sh, ","))
-			if nws > 1 && e == nws-1 && (i/3)%2 == 1 {
-				dropE, dropPos = e, rng.Intn(len(sh)+1)
+			lens = append(lens, len(sh))
+		}
+		if nws > 1 && (i/3)%2 == 1 {
+			dropE = rng.Intn(nws)
+			if rng.Intn(4) != 0 && dropE == 0 {
+				dropE = 1 + rng.Intn(nws-1)
 			}
+			dropPos = rng.Intn(lens[dropE] + 1)
 		}
 		drop := "-"
+		after := ""
 		if dropE >= 0 {
 			drop = fmt.Sprintf("%d@%d", dropE, dropPos)
+			// after the failure has been reported and handled the surviving endpoints emit new logs
+			// (and repeat old ones)
+			first := len(H)
+			for j := 0; j < 1+rng.Intn(3); j++ {
+				H = append(H, genHLog(tl[rng.Intn(len(tl))], first+j, rng, false))
+			}
+			var S2 []string
+			for e := 0; e < nws; e++ {
+				if e == dropE {
+					S2 = append(S2, "-")
+					continue
+				}
+				var st []string
+				for j := first; j < len(H); j++ {
+					st = append(st, fmt.Sprint(j))
+				}
+				for j := 0; j < first; j++ {
+					if rng.Intn(3) == 0 {
+						if only[j] {
+							st = append(st, fmt.Sprintf("%dr", j))
+						} else {
+							st = append(st, fmt.Sprint(j))
+						}
+					}
+				}
+				p := rng.Perm(len(st))
+				sh := make([]string, len(st))
+				for a, b := range p {
+					sh[a] = st[b]
+				}
+				S2 = append(S2, joinOr(sh, ","))
+			}
+			after = " " + strings.Join(S2, "/")
 		}
-		emit(fmt.Sprintf("sub %d %s %s %s %s", nws, csvI(tl), joinOr(H, "|"), strings.Join(S, "/"), drop))
+		emit(fmt.Sprintf("sub %d %s %s %s %s%s", nws, csvI(tl), joinOr(H, "|"), strings.Join(S, "/"), drop, after))
 	}
 }
